@@ -159,17 +159,17 @@ func TestC13P384(t *testing.T) {
 			P := ad.mk(a).(xy)
 			inf := a.Sign() == 0
 			if c.IsAtInfinity(P.x, P.y) != inf {
-				vlib.Report(t, "C13/p384/IsAtInfinity/mismatch", fmt.Sprintf("a=%s", a.Text(16)))
+				vlib.Report(t, "C13/p384.IsAtInfinity/mismatch", fmt.Sprintf("a=%s", a.Text(16)))
 				return
 			}
 			if !inf && !c.IsOnCurve(P.x, P.y) {
-				vlib.Report(t, "C13/p384/IsOnCurve/rejects-group-element", fmt.Sprintf("a=%s", a.Text(16)))
+				vlib.Report(t, "C13/p384.IsOnCurve/rejects-group-element", fmt.Sprintf("a=%s", a.Text(16)))
 				return
 			}
 			if !inf {
 				y2 := new(big.Int).Add(P.y, big.NewInt(1))
 				if c.IsOnCurve(P.x, y2) {
-					vlib.Report(t, "C13/p384/IsOnCurve/accepts-off-curve", fmt.Sprintf("a=%s y+1", a.Text(16)))
+					vlib.Report(t, "C13/p384.IsOnCurve/accepts-off-curve", fmt.Sprintf("a=%s y+1", a.Text(16)))
 				}
 			}
 		})
@@ -187,17 +187,6 @@ func sec1(c *curves.WCurve, p curves.WPoint) []byte {
 	out := []byte{4}
 	out = append(out, be(p.X.A, n)...)
 	return append(out, be(p.Y.A, n)...)
-}
-
-func groupScalar(t vlib.TB, g group.Group, k *big.Int, n int, reduced bool) group.Scalar {
-	s := g.NewScalar()
-	if reduced {
-		return s.SetBigInt(k)
-	}
-	if err := s.UnmarshalBinary(be(k, n)); err != nil {
-		t.Fatalf("scalar UnmarshalBinary: %v", err)
-	}
-	return s
 }
 
 func nistGroupAdapter(g group.Group, ref *curves.WCurve) *adapter {
@@ -255,11 +244,11 @@ func TestC13GroupNIST(t *testing.T) {
 				vlib.Class(sub, kcls)
 				gen := g.Generator().Copy()
 				if got, want := ad.enc(gen), ad.want(big.NewInt(1)); got != want {
-					vlib.Report(t, "C13/"+ad.name+"/Generator/mismatch", got)
+					vlib.Report(t, "C13/"+ad.name+".Generator/mismatch", got)
 					return
 				}
 				if got := ad.enc(g.Identity()); got != "00" || !g.Identity().IsIdentity() {
-					vlib.Report(t, "C13/"+ad.name+"/Identity/mismatch", got)
+					vlib.Report(t, "C13/"+ad.name+".Identity/mismatch", got)
 					return
 				}
 				s := g.NewScalar().SetBigInt(k)
